@@ -399,8 +399,10 @@ impl Inner {
         if n == 0 && !buf.is_empty() {
             self.stats.eof_reads += 1;
         }
-        let p = pos as usize;
-        buf[..n].copy_from_slice(&self.image[p..p + n]);
+        if n > 0 {
+            let p = pos as usize;
+            buf[..n].copy_from_slice(&self.image[p..p + n]);
+        }
         self.pos += n as u64;
         self.stats.bytes_read += n as u64;
         self.logop(OpKind::Read, pos, buf.len() as u64, n as u64, true, None);
